@@ -22,7 +22,13 @@ ASSUME = [
     "number, finite float, float32-exact float for `float` fields, valid unicode); a Python bool passed for an "
     "int field, an int for a float field or UTF-8 bytes for a string field are accepted by protobuf but are "
     "outside the typed domain and not compared",
-    "the tie model<->code is the fail-closed translator (structure) plus differential testing (semantics)",
+    "the tie model<->code is the converter table (structure) plus differential testing (semantics); the table is "
+    "obtained twice per run: transcribed from the source by the fail-closed ast translator and MEASURED on the running "
+    "code by harness/translators/c10_measure.py (probes per converter / field / direction, the model's own table "
+    "grammar fitted to the observations, nested converters checked compositionally); coverage.translator_path says "
+    "which one produced coq/Gen/C10Table.v: 'syntactic+measured (agree)' or 'measured only (source shape not "
+    "recognised: ...)'; trusted on the measured path: the probe plan and the Python mirror of the table semantics "
+    "(both re-checked by running the extracted model against the real code on every generated case)",
 ]
 
 
@@ -901,13 +907,37 @@ def _dedupe(ctx):
 
 def run(ctx):
     broken_translator = None
+    # two extractions of the converter table: the ast transcription and the table MEASURED on the running
+    # code (harness/translators/c10_measure.py); recognised source -> they must agree, unrecognised source ->
+    # the Gen file is generated from the measured table, neither -> fail closed
+    an = tr.analyse(scratch=getattr(ctx, "scratch", None))
+    tab = tab_to_json(an["tab"]) if an["tab"] is not None else None
+    ctx.coverage["translator_path"] = an["path"]
+    ctx.coverage["translator_measurement"] = {
+        "measured": an.get("measured"), "agreement": an.get("agreement"),
+        "syntactic_error": an.get("syntactic_error"), "measure_error": an.get("measure_error")}
+    if tab is None:
+        broken_translator = an["path"]
+        ctx.ties["translator:c10_converter"] = "broken: " + broken_translator[:700]
+    elif an["disagreements"]:
+        ctx.ties["translator:c10_converter"] = "broken: syntactic and measured tables disagree on %d probe(s)" % \
+            len(an["disagreements"])
+    else:
+        ctx.ties["translator:c10_converter"] = "ok: " + an["path"][:300]
+    if an["path"].startswith("measured only"):
+        ctx.notes.append("coq/Gen/C10Table.v generated from the MEASURED table: " + an["path"])
+    if an["path"].startswith("syntactic only"):
+        ctx.notes.append("converter table not cross-checked by measurement: " + an["path"])
+    if an["path"].startswith("syntactic") and an["undetermined"]:
+        ctx.notes.append("columns the measurement could not determine (syntactic table used for them): " +
+                         "; ".join("%s (%s)" % (u["column"], u["why"][:120]) for u in an["undetermined"][:6]))
     try:
-        tab = tab_to_json(tr.regenerate())
-        ctx.ties["translator:c10_converter"] = "ok"
-    except Exception as e:
-        broken_translator = "%s: %s" % (type(e).__name__, e)
-        ctx.ties["translator:c10_converter"] = "broken: " + broken_translator[:500]
-        tab = None
+        impl()
+    except BaseException as e:      # the tree under test cannot even be imported: nothing can be run, fail closed
+        why = "%s: %s" % (type(e).__name__, str(e)[:300])
+        ctx.ties["implementation:import"] = "broken: " + why
+        ctx.tie_broken_without_input("implementation:import (converter module cannot be imported)", why)
+        return ctx.finish(rule="no case could be run: the converter module does not import", assumptions_text=ASSUME)
     base = Info(load_baseline())
     cur = Info(tab) if tab is not None else base
     try:
@@ -1050,6 +1080,13 @@ def run(ctx):
         ctx.ties["correspondence"] = "ok" if mismatches == 0 else "broken"
     if broken_translator and not ctx.violations:
         ctx.tie_broken_without_input("translator:c10_converter", broken_translator)
+    # the transcription predicts something else than the code does on a probe: the tie is broken on that probe
+    for d in an["disagreements"][:2]:
+        ctx.violation("translator:c10_converter.syntactic-vs-measured",
+                      dict(d, kind="syntactic-vs-measured",
+                           what="the table transcribed from the source predicts a different result than the running "
+                                "code gives on this probe (see column / probe / predicted / observed)"),
+                      found_input=False)
     if not ctx.proof_ok and not ctx.violations:
         ctx.tie_broken_without_input("theorem:" + ctx.failing_theorem(), ctx.ties.get("proof"))
     if model is None and tab is not None and not ctx.violations:
@@ -1115,6 +1152,22 @@ def domain_summary(model_exe, info, gen_info, rng):
 
 def replay(ctx, data):
     case = data["case"]
+    if case.get("kind") == "syntactic-vs-measured":
+        import tempfile, shutil
+        tmp = tempfile.mkdtemp(prefix="yv-c10-replay-")
+        try:
+            an = tr.analyse(out=os.path.join(tmp, "C10Table.v"), scratch=tmp)
+        finally:
+            shutil.rmtree(tmp, ignore_errors=True)
+        print("recorded :", json.dumps(dict((k, case.get(k)) for k in ("conv", "class", "column", "field", "probe",
+                                                                       "predicted", "observed")))[:1500])
+        print("now      :", an["path"])
+        for d in an["disagreements"][:3]:
+            print("disagrees:", json.dumps(d)[:1500])
+        if an["disagreements"] or an["tab"] is None:
+            print("VIOLATION property=C10 replay=(replayed)")
+            return 1
+        return 0
     base = Info(load_baseline())
     conv = case.get("conv")
     if "payload" in case:
